@@ -12,6 +12,8 @@ import (
 	"reflect"
 	"runtime"
 	"strings"
+	"sync"
+	"sync/atomic"
 	"unsafe"
 
 	"github.com/filecoin-project/go-bitfield"
@@ -1249,6 +1251,31 @@ func derivedLines(r *vh.Rng, c *gpbft.ECChain) {
 			emit("allprefixes-extend-"+tag, ap.Extend(rbytes(r, 38)))
 			emit("allprefixes-prefix-"+tag, ap.Prefix(0))
 		}
+		// fork every cached prefix object but the longest (Append / Extend on a prefix must not write into the
+		// tipsets of the parent or of the longer prefixes), then read every cached object again
+		q := cloneChain(c)
+		if warmParent {
+			_ = q.Key()
+		}
+		aps := q.AllPrefixes()
+		for i := 0; i+1 < len(aps); i++ {
+			if r.Intn(2) == 0 {
+				emit("allprefixes-fork-append-"+tag, aps[i].Append(genTipSet(r, genEpoch(r), false)))
+			} else {
+				emit("allprefixes-fork-extend-"+tag, aps[i].Extend(rbytes(r, 38)))
+			}
+		}
+		for i, ap := range aps {
+			if i >= 4 && i+2 < len(aps) {
+				continue
+			}
+			op := "allprefixes-afterfork-" + tag
+			if !ap.Eq(cloneChain(c).Prefix(i)) {
+				op = "allprefixes-afterfork-CONTENT-CHANGED-" + tag
+			}
+			emit(op, ap)
+		}
+		emit("parent-afterfork-"+tag, q)
 	}
 }
 
@@ -1399,6 +1426,9 @@ func zstdStream(r *vh.Rng, reg []*entry) {
 		}
 		out.Line("zcap certs.FinalityCertificate cbor=%d cborerr=%v => %s", len(b), err != nil, verdict)
 	}
+	// concurrent decoding through the shared codecs (pubsub validators decode in parallel): every call must
+	// still return the value that was encoded
+	zconcLine(r, targets)
 	// mutated frames of valid messages
 	n := 200
 	if thorough {
@@ -1422,6 +1452,56 @@ func zstdStream(r *vh.Rng, reg []*entry) {
 		}
 		zdecLine(e, kind, m)
 	}
+}
+
+func zconcLine(r *vh.Rng, targets []*entry) {
+	type job struct {
+		e    *entry
+		zb   []byte
+		want string
+	}
+	workers, iters := 48, 120
+	if thorough {
+		iters = 1500
+	}
+	var jobs []job
+	for len(jobs) < workers {
+		e := targets[r.Intn(len(targets))]
+		v := e.gen(r, false)
+		if c, ok := v.(*certs.FinalityCertificate); ok && len(jobs)%3 == 0 {
+			c.Signature = rbytes(r, 20000+r.Intn(200000)) // long, incompressible: decoding takes a while
+		}
+		zb, err := e.zenc(v)
+		if err != nil {
+			continue
+		}
+		jobs = append(jobs, job{e, zb, safeText(v)})
+	}
+	var mismatch, errs, panics atomic.Int64
+	var wg sync.WaitGroup
+	for _, j := range jobs {
+		wg.Add(1)
+		go func(j job) {
+			defer wg.Done()
+			for i := 0; i < iters; i++ {
+				rz := guarded(func() (cm, error) { return j.e.zdec(j.zb) })
+				switch {
+				case rz.panic != "":
+					panics.Add(1)
+				case rz.err != nil:
+					errs.Add(1)
+				case safeText(rz.v) != j.want:
+					mismatch.Add(1)
+				}
+			}
+		}(j)
+	}
+	wg.Wait()
+	verdict := "ok"
+	if mismatch.Load()+errs.Load()+panics.Load() > 0 {
+		verdict = fmt.Sprintf("mismatch=%d,err=%d,panic=%d", mismatch.Load(), errs.Load(), panics.Load())
+	}
+	out.Line("zconc workers=%d iters=%d => %s", workers, iters, verdict)
 }
 
 // ---------------------------------------------------------------------------------------------
